@@ -97,9 +97,7 @@ def begin_run(sim: Sim) -> None:
     import_repo()
     import incomplete_cooperative.bounds  # noqa: F401
     clear_memos()
-    gens = sys.modules.get("incomplete_cooperative.generators")
-    if gens is not None and hasattr(gens, "_LAST_OWNER"):
-        gens._LAST_OWNER = 0
+    sim.probes["process_state_repaired_before_run"] += 1 if restore_pristine() else 0
     base = sim.choose(2 ** 32, "entropy")
     set_entropy(base)
     _entropy_counter["n"] = 0
@@ -204,3 +202,95 @@ def run_torn(fn: Callable[[], Any], k: int) -> bool:
     finally:
         sys.settrace(old)
     return t.fired  # fired but swallowed by the code under test still counts as delivered
+
+
+# ------------------------------------------------------ pristine process state per run
+# A run must start from the state a fresh process would have.  functools caches are evicted
+# (clear_memos); module-level and class-level mutable containers, lazily created globals and
+# scalars of the package are recorded after import and put back before every run, so that
+# process-global state introduced by a change under test cannot leak from one simulated run
+# into the next (which would break replay in a fresh interpreter).
+import types as _types  # noqa: E402
+
+_PRISTINE: dict[str, dict] = {}
+_CONTAINERS = (dict, list, set)
+
+
+def _holders(mod):
+    """(owner object, name space description) pairs whose attributes are tracked."""
+    yield mod, "module"
+    for k, v in list(vars(mod).items()):
+        if isinstance(v, type) and getattr(v, "__module__", None) == mod.__name__:
+            yield v, "class"
+        elif isinstance(v, _types.FunctionType) and getattr(v, "__module__", None) == mod.__name__ and v.__dict__:
+            yield v, "function"
+
+
+def _snapshot_owner(owner) -> dict:
+    snap = {}
+    for k, v in list(vars(owner).items()):
+        if k.startswith("__") and k.endswith("__"):
+            continue
+        if isinstance(v, _CONTAINERS):
+            snap[k] = ("container", v, type(v)(v))
+        elif isinstance(v, np.ndarray):
+            snap[k] = ("array", v, v.copy())
+        elif isinstance(v, (int, float, str, bool, bytes, complex, tuple, frozenset, type(None))):
+            snap[k] = ("scalar", v, None)
+        else:
+            snap[k] = ("other", v, None)
+    return snap
+
+
+def record_pristine() -> None:
+    for name, mod in sorted(sys.modules.items()):
+        if mod is None or not (name == "incomplete_cooperative" or name.startswith("incomplete_cooperative.")):
+            continue
+        if ".tests" in name or name in _PRISTINE:
+            continue
+        _PRISTINE[name] = {"owners": [(owner, _snapshot_owner(owner)) for owner, _ in _holders(mod)]}
+
+
+def restore_pristine() -> int:
+    """Put recorded package state back; returns the number of attributes that had to be repaired."""
+    record_pristine()
+    repaired = 0
+    for name, rec in _PRISTINE.items():
+        for owner, snap in rec["owners"]:
+            cur = vars(owner)
+            for k in [k for k in list(cur) if k not in snap and not (k.startswith("__") and k.endswith("__"))]:
+                v = cur[k]
+                if isinstance(v, (_types.ModuleType, _types.FunctionType, type)) or callable(v):
+                    continue
+                try:
+                    delattr(owner, k)  # a lazily created global / class attribute holding data
+                    repaired += 1
+                except Exception:
+                    pass
+            for k, (kind, obj, saved) in snap.items():
+                now = cur.get(k, None)
+                if kind == "container":
+                    if now is not obj:
+                        setattr(owner, k, obj)
+                        repaired += 1
+                    same = len(obj) == len(saved) and (list(obj.items()) == list(saved.items()) if isinstance(obj, dict)
+                                                        else (obj == saved))
+                    if not same:
+                        obj.clear()
+                        (obj.update if isinstance(obj, (dict, set)) else obj.extend)(saved)
+                        repaired += 1
+                elif kind == "array":
+                    if now is not obj:
+                        setattr(owner, k, obj)
+                        repaired += 1
+                    if obj.shape != saved.shape or not np.array_equal(obj, saved, equal_nan=True):
+                        try:
+                            obj[...] = saved
+                        except Exception:
+                            setattr(owner, k, saved.copy())
+                        repaired += 1
+                elif kind == "scalar":
+                    if now is not obj and not (now == obj and type(now) is type(obj)):
+                        setattr(owner, k, obj)
+                        repaired += 1
+    return repaired
